@@ -22,6 +22,7 @@ import MitmVerif.Lemmas.C48Body
 import MitmVerif.Lemmas.C48Raw
 import MitmVerif.Lemmas.C48Argv
 import MitmVerif.Lemmas.C48Chunk
+import MitmVerif.Lemmas.C48Url
 namespace MitmVerif.Props.C48
 open MitmVerif MitmVerif.C48 MitmVerif.C48.Sh MitmVerif.Lemmas.C48
 
@@ -440,5 +441,26 @@ example : isChunked [([116, 114, 97, 110, 115, 102, 101, 114, 45, 101, 110, 99, 
   decide                                                                                          -- "Chunked"
 example : isChunked [([84, 114, 97, 110, 115, 102, 101, 114, 45, 69, 110, 99, 111, 100, 105, 110, 103],
     [103, 122, 105, 112, 44, 32, 67, 72, 85, 78, 75, 69, 68])] = true := by decide                 -- Transfer-Encoding: gzip, CHUNKED
+
+
+/-! ## round 5: the URL argument names the request's host — `url.unparse` (C33's transcription) read back as a client does -/
+
+/-- **the exported URL dials the request's host and port**, for every scheme without a colon, every host a URL can carry
+    (non-empty, none of `/ ? # [ ] @`) that is either an IPv6 literal (contains `:`; it is printed in brackets) or contains no
+    colon at all, every port and every path that is empty or starts with `/`, `?` or `#`: reading the authority of
+    `unparse scheme host port path` the way curl/httpie do gives back exactly `host`, with the port digits unless it is the
+    scheme's default port. -/
+theorem url_argument_dials_request_host (scheme h path : UStr) (port : Nat)
+    (hs : scheme.all (fun c => decide (c ≠ 58)) = true) (hh : hostCarried h = true) (hpath : pathStarts path = true)
+    (hv6 : h.contains 58 = true ∨ h.all (fun c => decide (c ≠ 58)) = true) :
+    dial (C33.unparse scheme h port path) =
+      some (h, if C33.defaultPort scheme = some port then none else some (C33.decDigits port)) :=
+  dial_unparse scheme h path port hs hh hpath hv6
+
+/-- an IPv6 literal printed without brackets (what seed c48-5 produced for default ports) is not readable -/
+example : dial (C33.S "http://2001:db8::1/path") = none := by decide
+example : dial (C33.unparse (C33.S "http") (C33.S "2001:db8::1") 80 (C33.S "/path")) = some (C33.S "2001:db8::1", none) := by decide
+example : dial (C33.unparse (C33.S "https") (C33.S "::1") 8443 (C33.S "/")) = some (C33.S "::1", some (C33.S "8443")) := by decide
+example : dial (C33.unparse (C33.S "http") (C33.S "example.com") 8080 []) = some (C33.S "example.com", some (C33.S "8080")) := by decide
 
 end MitmVerif.Props.C48
